@@ -90,7 +90,7 @@ type Spec struct {
 var clauseKw = map[string]bool{
 	"pure": true, "func": true, "extern": true, "iface": true, "lockinv": true, "property": true,
 	"case": true, "requires": true, "ensures": true, "modifies": true, "loop": true, "cut": true,
-	"inline": true, "trusted": true, "field": true, "lemma": true, "guards": true, "invariant": true, "observe": true, "ghostset": true, "axiom": true, "ghostdef": true, "assumed": true, "atcall": true, "tokens": true, "consumes": true, "ghostat": true, "tokentable": true, "opaque": true, "nocall": true,
+	"inline": true, "trusted": true, "field": true, "lemma": true, "guards": true, "invariant": true, "observe": true, "ghostset": true, "axiom": true, "ghostdef": true, "assumed": true, "atcall": true, "tokens": true, "consumes": true, "ghostat": true, "tokentable": true, "opaque": true, "nocall": true, "induct": true,
 	"stable": true, "assert": true, "params": true, "ghost": true,
 }
 
@@ -308,6 +308,26 @@ func ParseSpec(path string) (*Spec, error) {
 					sp.TokenSlots[fs[0]] = fs[2]
 				}
 			}
+		case "induct":
+			// induct [props] forall(j, lo, hi, body) by hint; hint   (lemma proved by strong induction on j in the
+			// return state, then assumed for the postconditions; the hints are the instances of the hypothesis)
+			props, body := splitProps(rest)
+			var hints []ast.Expr
+			if k := strings.LastIndex(body, " by "); k > 0 {
+				for _, h := range strings.Split(body[k+4:], ";") {
+					he, err := parseExpr(strings.TrimSpace(h), rc.line)
+					if err != nil {
+						return nil, err
+					}
+					hints = append(hints, he)
+				}
+				body = strings.TrimSpace(body[:k])
+			}
+			e, err := parseExpr(body, rc.line)
+			if err != nil {
+				return nil, err
+			}
+			addClause(&Clause{Kind: "induct", Text: rest, Expr: e, Frames: hints, Line: rc.line, Props: props})
 		case "nocall":
 			// nocall f: the function under verification contains no call site of f (structural obligation)
 			props, body := splitProps(rest)
